@@ -221,6 +221,47 @@ class Program:
             return self.modules.get(dotted[len(PKG) + 1 :])
         return None
 
+    CONTAINER_MUTATORS = {"append", "appendleft", "pop", "popleft", "popitem", "update", "clear", "extend", "insert", "remove", "setdefault", "add", "discard", "sort", "reverse", "__setitem__", "__delitem__"}
+
+    def global_mutated(self, mod: Module, name: str) -> bool:
+        """Is the module-level container `name` of `mod` changed after import (item store / delete, mutating
+        method, augmented assignment or `global` rebinding anywhere in the package)?  Such a global is run-time
+        state: its content at a use is not its initial literal."""
+        cache = self.__dict__.setdefault("_mutglob", {})
+        key = (mod.label, name)
+        if key in cache:
+            return cache[key]
+
+        def is_ref(expr, m) -> bool:
+            if isinstance(expr, ast.Name) and expr.id == name:
+                if m is mod:
+                    return True
+                imp = m.imports.get(name)
+                return bool(imp) and imp[1] == name and self.module_of_dotted(imp[0]) is mod
+            return isinstance(expr, ast.Attribute) and expr.attr == name and not (isinstance(expr.value, ast.Name) and expr.value.id in ("self", "cls"))
+
+        found = False
+        for m in self.modules.values():
+            for node in ast.walk(m.tree):
+                if isinstance(node, ast.Global) and m is mod and name in node.names:
+                    found = True
+                elif isinstance(node, (ast.Assign, ast.AugAssign, ast.AnnAssign, ast.Delete)):
+                    targets = node.targets if isinstance(node, (ast.Assign, ast.Delete)) else [node.target]
+                    for t in targets:
+                        for tt in (t.elts if isinstance(t, (ast.Tuple, ast.List)) else [t]):
+                            if isinstance(tt, ast.Subscript) and is_ref(tt.value, m):
+                                found = True
+                            if isinstance(node, ast.AugAssign) and is_ref(tt, m):
+                                found = True
+                elif isinstance(node, ast.Call) and isinstance(node.func, ast.Attribute) and node.func.attr in self.CONTAINER_MUTATORS and is_ref(node.func.value, m):
+                    found = True
+                if found:
+                    break
+            if found:
+                break
+        cache[key] = found
+        return found
+
     def resolve_global(self, mod: Module, name: str, _depth: int = 0):
         """Resolve a global name of `mod`.
 
